@@ -14,6 +14,7 @@ import (
 	"os"
 	"sort"
 	"strings"
+	"sync/atomic"
 )
 
 func init() {
@@ -86,6 +87,10 @@ func c03Gen(class string, seed uint64, tier string) *vfScenario {
 			sc.Ops = append(sc.Ops, op)
 		}
 	}
+	if rng.IntN(6) == 0 {
+		// a long-lived session: the 32-bit request id counter is about to wrap around during this run
+		sc.Cfg["idwrap"] = int64(1 + rng.IntN(12))
+	}
 	return sc
 }
 
@@ -153,6 +158,10 @@ func c03Exec(r *vfRun) {
 	if err != nil {
 		r.fail("C03/handshake", "handshake", "handshake with a correct peer failed: %v", err)
 		return
+	}
+	if w := sc.cfg("idwrap", 0); w > 0 {
+		atomic.StoreUint32(&c.nextid, ^uint32(0)-uint32(w))
+		sim.count("probe.request_id_counter_wraps")
 	}
 	env := &vfClientEnv{sim: sim, prop: "C03", c: c, files: map[int]*File{}, tag: tag}
 	sim.addSource(env.cancelEvents)
